@@ -215,7 +215,10 @@ def group_sentence(rnd, d):
         else:
             n = {"one": 1, "opt": rnd.choice([0, 1]), "many": rnd.choice([0, 1, 2, 3])}[f["arity"]]
             for _ in range(n):
-                items = [it_name(rnd.choice(f["head"]["shorts"] + f["head"]["longs"]))]
+                if f["head"]["kind"] == "cmd":
+                    items = [it_word(rnd.choice(f["head"]["names"]))]
+                else:
+                    items = [it_name(rnd.choice(f["head"]["shorts"] + f["head"]["longs"]))]
                 named = [m for m in f["members"] if m["kind"] != "pos"]
                 rnd.shuffle(named)
                 for m in named:
@@ -246,6 +249,20 @@ def group_pool(d):
                 if it["kind"] == "arg":
                     pool.append(it_eq(n, "1"))
     return pool
+
+
+def tree_group_line(rnd, d, mutate=0.6):
+    """root items, a command name, then a (possibly damaged) line of that command's own level"""
+    line = []
+    for it in d["named"]:
+        if rnd.random() < 0.5:
+            line += leaf_occ(rnd, it)
+    if rnd.random() < 0.08:
+        line.insert(rnd.randint(0, len(line)), it_extra(rnd.choice(["help", "unk", "dd"])))
+    c = rnd.choice(d["tail"]["cmds"])
+    if rnd.random() < 0.95:
+        line.append(it_word(rnd.choice(c["names"])))
+    return (line + group_line(rnd, c["level"], mutate))[:24]
 
 
 def group_line(rnd, d, mutate=0.6):
